@@ -220,9 +220,27 @@ fn case_strategy(thorough: bool) -> impl Strategy<Value = Case> {
     // short program again; what the first part left in flight is delivered late, after the bulk
     let scale = (2u8..=3, 1u8..3, prop_oneof![Just(1_100u16), Just(4_200u16), Just(5_200u16)], 0u8..8).prop_flat_map(
         move |(nodes, profile, count, bulk_node)| {
+            // half of the scale cases use the full grammar of the profile, half a plain one
+            // (SET / DEL of two string keys, few deliveries) in which "a delete, thousands of
+            // ticks, another delete, then a late older write" is common
+            let plain = || {
+                prop_oneof![
+                    5 => (0u8..8, prop_oneof![Just("ka"), Just("kb")], 0u8..4)
+                        .prop_map(|(node, k, v)| Step::Cmd { node, argv: vec!["SET".into(), k.into(), format!("v{}", v)] }),
+                    4 => (0u8..8, prop_oneof![Just("ka"), Just("kb")])
+                        .prop_map(|(node, k)| Step::Cmd { node, argv: vec!["DEL".into(), k.into()] }),
+                    3 => any::<u16>().prop_map(|idx| Step::Deliver { idx }),
+                ]
+                .boxed()
+            };
+            let (head, tail): (BoxedStrategy<Step>, BoxedStrategy<Step>) = if profile == 1 {
+                (plain(), plain())
+            } else {
+                (step_strategy(profile, false, 0).boxed(), step_strategy(profile, false, 0).boxed())
+            };
             (
-                proptest::collection::vec(step_strategy(profile, false, 0), 4..14),
-                proptest::collection::vec(step_strategy(profile, false, 0), 3..12),
+                proptest::collection::vec(head, 4..14),
+                proptest::collection::vec(tail, 3..12),
             )
                 .prop_map(move |(mut steps, tail)| {
                     steps.push(Step::Bulk { node: bulk_node, n: count });
